@@ -358,7 +358,7 @@ PAYLOADS = [
 ]
 UNKNOWN_KEYS = ["foobar", "Level", "LEVEL", "slices_z", "name ", " level", "picture_bytes_", "é", "quantisation_matrix", "0", "#", "default"]
 
-N_OPS = 20
+N_OPS = 21
 
 
 def data_rows(table):
@@ -530,6 +530,20 @@ def apply_op(table, op, touched, ops_used):
                 while len(row) <= n:
                     row.append("")
                 row.append(column[row[0].strip()])
+    elif kind == 19:
+        # an explicit name that equals the name another, unnamed, column gets automatically ("column_" + spreadsheet
+        # letter): the two configurations would share one key
+        name = "name-collides-with-generated-name"
+        rn = find_row(table, "name")
+        if rn is None:
+            table.insert(0, ["name"] + ["n%d" % i for i in range(n)])
+            rn = 0
+        if n >= 2:
+            j = a % n
+            i = (j + 1 + b % (n - 1)) % n
+            set_cell(table, rn, 1 + j, rnd.choice(["", "", " "]))
+            set_cell(table, rn, 1 + i, "column_" + "BCDEFGHIJKLMNOPQRSTUVWXYZ"[j % 25])
+        touched.add("name")
     else:
         if c % 8 == 0:  # a cell above the csv module's field limit (131072 characters)
             name = "oversize-cell"
